@@ -14,6 +14,7 @@ CONSTANTS
   PreRO <- NoPreRO
   FrontKind = "plain"
   KeyShards <- NoKeyShards
+  FaultBudget = 0
 VIEW View
 INVARIANTS InvDirValid InvDebris InvHandle InvNoErr InvNonBlocking
 PROPERTIES StepImmutable StepReadOnlyFirst StepRemoval StepRegister StepGetLin
